@@ -29,7 +29,7 @@ Lemma tga_cmap_ok n : forall l, bytes l -> tcm_ok (tga_cmap n l) /\ length (tga_
 Proof.
   induction n as [|n IH]; intros l B; cbn [tga_cmap]; [split; [constructor|reflexivity]|].
   assert (B' : bytes (skipn 3 l)) by (apply Forall_skipn_g; exact B).
-  destruct (IH _ B') as [C L]. split; [|cbn; lia]. constructor; [|exact C].
+  destruct (IH _ B') as [C L]. split; [|cbn [length]; rewrite L; reflexivity]. constructor; [|exact C].
   pose proof (znth_byte l 0 B). pose proof (znth_byte l 1 B). pose proof (znth_byte l 2 B). unfold byte. lia.
 Qed.
 
